@@ -236,6 +236,10 @@ class Engine:
             return f(*[self.to_V(x) for x in v.items])
         if isinstance(v, Ref):
             return z3.Const('global<%s>' % v.name, V)
+        if isinstance(v, Bound) and isinstance(v.recv, Obj):
+            return self.uf('attr_' + v.name, V, V)(v.recv.t)         # an attribute read: deterministic
+        if isinstance(v, Bound) and isinstance(v.recv, Bound):
+            return self.uf('attr_' + v.name, V, V)(self.to_V(v.recv))
         if isinstance(v, (FuncV, Bound, DictV)):
             return self.fresh('closure', V)
         if hasattr(v, '_at') and hasattr(self, 'arr_to_V'):
@@ -450,8 +454,9 @@ class Engine:
             raise Unsupported('assignment target %s' % type(tgt).__name__)
 
     def unpack_item(self, st, val, base, k, n, node):
-        f = self.uf('unpack%d_%d' % (k, n), V, V)
-        return Obj(f(base), taint=val.taint)
+        # a, b = x  binds  a = x[0], b = x[1]: the same uninterpreted `getitem` as an explicit subscript
+        return Obj(self.uf('getitem', V, V, V)(base, self.to_V(Num(z3.IntVal(k)))), taint=val.taint,
+                   ghost=(val.g('elem_ghost') if isinstance(val, (Obj, Tup)) else None))
 
     def const_key(self, k):
         if isinstance(k, Const):
@@ -578,9 +583,18 @@ class Engine:
             if n not in mods:
                 mods.append(n)
         def root(e):
+            # x.a[...].b...  ->  '@x.a' (only that field of the object is modified);  x[...]  ->  'x'
+            first_attr = None
             while isinstance(e, (ast.Subscript, ast.Attribute)):
+                if isinstance(e, ast.Attribute):
+                    first_attr = e.attr
                 e = e.value
-            return e.id if isinstance(e, ast.Name) else None
+            if not isinstance(e, ast.Name):
+                return None
+            if first_attr is not None:
+                # find the attribute applied directly to the root name
+                return '@%s.%s' % (e.id, first_attr)
+            return e.id
         body_nodes = []
         for b in node.body + node.orelse:
             body_nodes.extend(ast.walk(b))
@@ -599,7 +613,7 @@ class Engine:
                                     'discard', 'clear', 'insert', 'setdefault', 'combine'):
                 r = root(n.func.value)
                 if r:
-                    add('?' + r)        # mutated through a method: only a local variable can be meant
+                    add(r if r.startswith('@') else '?' + r)        # mutated through a method: only a local variable can be meant
             for t in tg:
                 for x in ast.walk(t):
                     if isinstance(x, ast.Name) and isinstance(x.ctx, ast.Store):
@@ -636,7 +650,23 @@ class Engine:
     def havoc_mods(self, st, mods, taints, tag, ghosts=None):
         mods = [m for m in mods if not m.startswith('?')] + \
                [m[1:] for m in mods if m.startswith('?') and m[1:] in st.env and m[1:] not in mods]
+        for m in [m for m in mods if m.startswith('@')]:
+            rname, attr = m[1:].split('.', 1)
+            o = st.env.get(rname)
+            if isinstance(o, Obj):
+                key = (str(o.t), attr)
+                old = st.fields.get(key)
+                st.fields[key] = Obj(self.fresh('%s_%s_%s' % (rname, attr, tag), V), cls=getattr(old, 'cls', None),
+                                     taint=t_or(getattr(old, 'taint', FALSE), taints.get(m, FALSE)), ghost=getattr(old, 'ghost', None))
+        mods = [m for m in mods if not m.startswith('@')]
         for m in mods:
+            lt = self.c.get('local_types', {}).get(m)
+            if m in st.env and lt and (lt.startswith('seq:') or lt.startswith('arr:')) and not hasattr(st.env[m], '_at'):
+                old = st.env[m]
+                self.counter += 1
+                st.env[m] = self.typed(lt, '%s_%s!%d' % (m, tag, self.counter), taint=t_or(old.taint, taints.get(m, FALSE)))
+                st.assume(st.env[m].n >= 0)
+                continue
             if m in st.env:
                 old = st.env[m]
                 if isinstance(old, (FuncV, Ref)):
@@ -679,6 +709,11 @@ class Engine:
         mods = self.loop_mods(node)
         mods = [m for m in mods if not m.startswith('?')] + \
                [m[1:] for m in mods if m.startswith('?') and m[1:] in st.env and m[1:] not in mods]
+        for m in mods:                       # values at loop entry, for invariants: <var>__loop<no>
+            if m in st.env:
+                st.env['%s__loop%d' % (m, no)] = st.env[m]
+        for g_, t_ in st.ghost.items():
+            st.env['%s__loop%d' % (g_, no)] = Num(t_) if t_.sort() != B else BoolV(t_)
         k = self.fresh('k%d' % no, I)
         # 1. invariant holds on entry
         lo = L.get('_lo', z3.IntVal(0))
@@ -829,6 +864,7 @@ class Engine:
         n = arr.n if arr is not None else self.uf('len', V, I)(itv_t)
         def setup(s, k, entry, exit_=False):
             s.env['_it'] = Num(k if z3.is_expr(k) else z3.IntVal(k))     # ghost: number of completed iterations
+            s.env['_it%d' % no] = s.env['_it']
             if exit_ or entry:
                 return
             item = None
@@ -840,7 +876,7 @@ class Engine:
                 if elems is not None and elems and all(isinstance(x, Num) for x in elems):
                     item = Num(self.fresh('elem', R), taint=t_or(*[x.taint for x in elems]))
                 else:
-                    item = Obj(self.uf('item', V, I, V)(itv_t, k if z3.is_expr(k) else z3.IntVal(k)),
+                    item = Obj(self.uf('getitem', V, V, V)(itv_t, self.to_V(Num(k if z3.is_expr(k) else z3.IntVal(k)))),
                                taint=t_or(itv.taint, *[x.taint for x in (elems or [])]),
                                ghost=(itv.g('elem_ghost') if isinstance(itv, (Obj, Tup)) else None))
             self.assign_target(s, node.target, item, node)
@@ -1319,11 +1355,12 @@ class Engine:
         # local functions and lambdas are inlined (they have no contract of their own)
         if isinstance(fv, FuncV):
             return self.inline(st, fv, args, kw, node)
-        if hasattr(self, 'arr_call'):
+        declared_pure = (mname if recv is None else '.' + mname) in self.c.get('pure', {})
+        if hasattr(self, 'arr_call') and not declared_pure:
             x = self.arr_call(st, mname, recv, args, kw, node)
             if x is not NotImplemented:
                 return x
-        x = self.builtin(st, mname, recv, args, kw, node)
+        x = self.builtin(st, mname, recv, args, kw, node) if not declared_pure else NotImplemented
         if x is not NotImplemented:
             return x
         # callee under contract
